@@ -144,7 +144,7 @@ static void child (const Op * hist, int nh, int wfd)
   memset (&R, 0, sizeof (R));
   for (t = 0; t < 3; t++) { exp_over[t] = -1; for (s = 0; s < NSETS; s++) exp_rule[t][s] = -1; }
   v_install_handlers ();
-  alarm (30);
+  alarm (120);	/* wall-clock backstop only: generous, so that a loaded machine cannot turn it into an alarm */
   for (i = 0; i < 24; i++) { S1v[i] = (orc_uint16) (i * 3001 + 17); S2v[i] = (orc_uint16) (i * 7919 + 60000); }
   for (i = 0; i < nh; i++) {
     const Op *o = &hist[i];
